@@ -351,3 +351,34 @@ func TestC03_Errors(t *testing.T) {
 		g.NonTrivial(fmt.Sprintf("%s/%d", name, n))
 	})
 }
+
+// TestC03_LargeBatches: batches far longer than the unit tests use (sizes around 64, 128 and 256, where a batched or
+// chunked implementation would change algorithm), with none to a few invalid positions — first, last, and generated
+// ones, cancelling groups included (c03Build draws the kinds).
+func TestC03_LargeBatches(t *testing.T) {
+	gen.Run(t, "C03", func(g *gen.G) {
+		n := []int{33, 63, 64, 65, 66, 127, 128, 129, 130, 255, 256, 257}[g.Pick("n", 12)]
+		msg := g.Bytes("msg", 0, 40)
+		h := crypto.NewExpandMsgXOFKMAC128("c03-large")
+		H := hashToG1(g, msg, h)
+		invalid := make([]bool, n)
+		k := g.Int("invalidCount", 0, 4)
+		for i := 0; i < k; i++ {
+			switch g.Int("where", 0, 3) {
+			case 0:
+				invalid[0] = true
+			case 1:
+				invalid[n-1] = true
+			default:
+				invalid[g.Pick("invalidAt", n)] = true
+			}
+		}
+		b := c03Build(g, n, invalid, msg, h, H, "")
+		v, iv := c03Check(g, b, msg, h, g.Chance("individually", 1, 4))
+		g.Class(fmt.Sprintf("largeBatch:%d", n))
+		if v > 0 && iv > 0 {
+			g.Class("largeBatch:mixed")
+		}
+		g.NonTrivial()
+	})
+}
